@@ -33,6 +33,7 @@ int main(int argc, char **argv) {
     else if (ctx.engine == "lift") run_lift_case(ctx, k, r, d);
     else if (ctx.engine == "twin") run_twin_case(ctx, k, r, d);
     else if (ctx.engine == "flow") run_flow_case(ctx, k, r, d);
+    else if (ctx.engine == "typedtwin") run_typedtwin_case(ctx, k, r, d);
     else if (ctx.engine == "xform") run_xform_case(ctx, k, r, d);
     else {
       fprintf(stderr, "unknown engine\n");
